@@ -160,14 +160,27 @@ class ManagerInterp:
                 raise core.HarnessError(f"unknown op {op}")
 
 
+def _accepted(scn):
+    """False when the API itself rejects the configuration with ValueError (e.g. a constrained site on which the spacing
+    leaves no borehole): there is no design whose history dependence could be judged"""
+    from ghedesigner.manager import GHEManager
+
+    with warnings.catch_warnings():
+        warnings.simplefilter("ignore")
+        try:
+            guarded(gs.configure, GHEManager(), scn, allow=(ValueError,), what="setters + set_design (fresh manager)")
+        except ValueError:
+            return False
+    return True
+
+
 def _pool():
     """a fixed, small pool of quick scenarios (one per method + pipe variety), generated once per run"""
     ctx = HOLDER["ctx"]
     key = "pool"
     if key not in HOLDER:
         cases = gs.stratified(ctx, 12, outcomes=["inside", "edge_large"], months=st.sampled_from([12, 24]), label="c13pool")
-        # keep it cheap: no RowWise perimeter sweeps
-        HOLDER[key] = cases
+        HOLDER[key] = [c for c in cases if _accepted(c)]
     return HOLDER[key]
 
 
